@@ -383,7 +383,8 @@ def docs_mechanism(chk, dprog, cfg):
             b.dominates(t_def, idents["docs"]), b.dominates(t_alw, idents["docs_always"]), never_no_iter)
     chk.expect(ok and okm, "R9.4", "generate_docs:mode-switch", b.where(), detail, cfg)
     # strip-once
-    cl = [p for p in dprog._bodies_raw if mir.strip_generics(p).startswith(cd.D + "TypeInfoImpl::generate_docs::{closure")]
+    # everything generate_docs does per attribute: its closures and the private helpers it (or they) call
+    cl = [p for p in cd.closure_tree(dprog, b.path) if p != b.path]
     stripped = []
     for p in cl:
         cb = dprog.body(p)
@@ -452,5 +453,5 @@ def emission_order(chk, dprog, cfg):
         chk.fail("R9.2", "adapter:%s:%s" % (mir.strip_generics(b.path), nm.split("::")[-1]), b.where(bb), "%s on an emission flow changes order or selection" % nm, cfg)
     chk.expect(not bad, "R9.2", "emission:no-reordering-adapter", None, "%d calls scanned in the emitting functions" % n, cfg)
     tp = dprog.body(dprog.fn("TypeInfoImpl::expand"))
-    ok = any(b2.callee_name(t).endswith("Generics::type_params") for b2 in [tp] for bb, t in b2.calls())
+    ok = any(b2.callee_name(t).endswith("Generics::type_params") for b2 in [dprog.body(p_) for p_ in cd.closure_tree(dprog, tp.path)] for bb, t in b2.calls())
     chk.expect(ok, "R9.2", "type-params-from-generics", tp.where(), "expand iterates generics.type_params(): %s" % ok, cfg)
